@@ -185,6 +185,85 @@ def build_read_reply(ids, statuses, shape, malformed, dup, gstatus):
     return (207 if any(isinstance(s, int) and s != 0 for s in statuses) else 200), json.dumps(body).encode()
 
 
+def _judge_read(res, ids, statuses, shape, gstatus, det):
+    out = []
+    for k, s in zip(ids, statuses):
+        r = res.get(k)
+        mentioned = s != "omit" and shape != "no-list"
+        if mentioned:
+            if r is None:
+                out.append(("ip:read-result-missing-for-mentioned-characteristic", dict(det, key=k)))
+            elif s in (0, "ok+status0"):
+                if r.get("value") != k[0] * 100 + k[1] or r.get("status", 0) != 0:
+                    out.append(("ip:read-value-wrong", dict(det, key=k, got=r)))
+            elif r.get("status") not in (s, -abs(s)) or "value" in r:
+                out.append(("ip:read-status-wrong", dict(det, key=k, got=r)))
+        elif gstatus not in (None, 0):
+            if r is None or r.get("status") not in (gstatus, -abs(gstatus)):
+                out.append(("ip:global-error-not-applied-to-unmentioned-characteristic", dict(det, key=k, got=r)))
+    extra = set(res) - set(ids)
+    if extra:
+        out.append(("ip:read-result-for-unrequested-characteristic", dict(det, extra=sorted(extra))))
+    return out
+
+
+def case_ip_read_overlap(p):
+    """Several callers read at the same time on one pairing (the same ids, or different ones): the accessory is silent until all of them have
+    asked, then answers one request after the other.  Every caller gets the outcome of every characteristic IT asked for."""
+    import json as _json
+
+    ids = [tuple(x) for x in p["ids"]]
+    out = []
+    rig = IpRig(seed=p.get("seed", 0))
+    n = 0
+    try:
+        cur = {}
+
+        def get(sess, method, target, headers, body):
+            asked = [tuple(int(y) for y in x.split(".")) for x in target.split("id=")[1].split("&")[0].split(",")]
+            st = [cur["statuses"][ids.index(a)] if a in ids else 0 for a in asked]
+            code, body_ = build_read_reply(asked, st, cur["shape"], "none", False, cur["g"])
+            return code, body_, "application/hap+json"
+
+        rig.acc.handler = std_handler({("GET", "/characteristics"): get})
+        rig.connect()
+        for statuses, shape, gstatus in p["replies"]:
+            for callers in p["callers"]:
+                n += 1
+                cur.update(statuses=statuses, shape=shape, g=gstatus)
+                rig.auto_deliver = False
+                sets = [ids if c == "same" else (ids[:1] if c == "first" else list(reversed(ids))) for c in callers]
+                tasks = [rig.loop.create_task(rig.pairing.get_characteristics(list(s_))) for s_ in sets]
+                for _ in range(6 * len(tasks) + 6):
+                    rig.loop.run_until_idle()
+                    if all(t.done() for t in tasks):
+                        break
+                    if rig.outbox:
+                        cc, data = rig.outbox.pop(0)
+                        cc.send(data)
+                rig.auto_deliver = True
+                det = {"transport": "ip", "ids": ids, "statuses": statuses, "shape": shape, "global": gstatus, "callers": list(callers)}
+                for j, (t, s_) in enumerate(zip(tasks, sets)):
+                    if not t.done():
+                        t.cancel()
+                        out.append(("ip:overlapping-read-never-completes", dict(det, caller=j)))
+                    elif t.exception() is not None:
+                        out.append((f"ip:overlapping-read-raises:{type(t.exception()).__name__}", dict(det, caller=j, err=str(t.exception())[:160])))
+                    else:
+                        st = [statuses[ids.index(a)] for a in s_]
+                        out += [(sig + ":overlapping-callers", dict(d, caller=j)) for sig, d in _judge_read(t.result(), list(s_), st, shape, gstatus, det)]
+                if out:
+                    break
+                if not rig.pairing.is_connected:
+                    rig.connect()
+            if out:
+                break
+    finally:
+        rig.close()
+    p["_n"] = n
+    return out
+
+
 def case_ip_read(p):
     ids = [tuple(x) for x in p["ids"]]
     out = []
@@ -216,23 +295,7 @@ def case_ip_read(p):
                 if not rig.pairing.is_connected:
                     rig.connect()
                 break
-            for k, s in zip(ids, statuses):
-                r = res.get(k)
-                mentioned = s != "omit" and shape != "no-list"
-                if mentioned:
-                    if r is None:
-                        out.append(("ip:read-result-missing-for-mentioned-characteristic", dict(det, key=k)))
-                    elif s in (0, "ok+status0"):
-                        if r.get("value") != k[0] * 100 + k[1] or r.get("status", 0) != 0:
-                            out.append(("ip:read-value-wrong", dict(det, key=k, got=r)))
-                    elif r.get("status") not in (s, -abs(s)) or "value" in r:
-                        out.append(("ip:read-status-wrong", dict(det, key=k, got=r)))
-                elif gstatus not in (None, 0):
-                    if r is None or r.get("status") not in (gstatus, -abs(gstatus)):
-                        out.append(("ip:global-error-not-applied-to-unmentioned-characteristic", dict(det, key=k, got=r)))
-            extra = set(res) - set(ids)
-            if extra:
-                out.append(("ip:read-result-for-unrequested-characteristic", dict(det, extra=sorted(extra))))
+            out += _judge_read(res, ids, statuses, shape, gstatus, det)
             if out:
                 break
     finally:
@@ -241,7 +304,7 @@ def case_ip_read(p):
     return out
 
 
-CASES = {"ip_write": case_ip_write, "ip_read": case_ip_read}
+CASES = {"ip_write": case_ip_write, "ip_read": case_ip_read, "ip_read_overlap": case_ip_read_overlap}
 for _mod in ("c13_coap", "c13_ble"):
     try:
         _m = __import__(f"vt.props.{_mod}", fromlist=["CASES"])
@@ -256,7 +319,7 @@ def _work(item, seed, tier):
     p = dict(p, seed=seed)
     v = CASES[name](p)
     n = p.pop("_n", 1)
-    acc.case(key=(name, core.jsonable(p)), outcome=f"{name}:{'ok' if not v else v[0][0]}", sample={"case": name, "ids": p["ids"], "first_reply": core.jsonable(p["replies"][0])}, symbols=(name,))
+    acc.case(key=(name, core.jsonable(p)), outcome=f"{name}:{'ok' if not v else v[0][0]}", sample={"case": name, "ids": p["ids"], "first_reply": core.jsonable(p["replies"][0]) if p.get("replies") else None}, symbols=(name,))
     acc.n += max(0, n - 1)
     for i in range(max(0, n - 1)):
         acc.keys.add(core.h64((name, core.jsonable(p), i)))
@@ -328,6 +391,11 @@ def plan(tier):
                     work.append(("ip_read", {"ids": ids, "replies": reps[i : i + 150], "container": cont}))
                 work.append(("ip_read", {"ids": ids, "replies": reps[i : i + 150], "wire": "chunked-lower", "env": dict(delivery="bytes", frames=[7])}))
                 work.append(("ip_read", {"ids": ids, "replies": reps[i : i + 150], "env": dict(delivery="3/4", frames=[48])}))
+    # overlapping readers on one pairing
+    for ids in ([(1, 9)], [(1, 9), (1, 10)], [(1, 9), (2, 9), (1, 10)]):
+        reps = [([0] * len(ids), "list", None), ([0] + [-70402] * (len(ids) - 1), "list", None), ([0] + ["omit"] * (len(ids) - 1), "list", -70402), (["omit"] * len(ids), "no-list", -70402)]
+        callers = [("same", "same"), ("same", "same", "same"), ("same", "first"), ("first", "same"), ("same", "reversed"), ("first", "same", "reversed")]
+        work.append(("ip_read_overlap", {"ids": ids, "replies": reps, "callers": callers}))
     for _mod in ("c13_coap", "c13_ble"):
         try:
             _m = __import__(f"vt.props.{_mod}", fromlist=["plan"])
